@@ -11,7 +11,7 @@ from gmg import dag, ir, report, tab_ops
 
 def shapes(tier):
     if tier == "quick":
-        return [(6, 8, 2, False), (6, 8, 3, True), (7, 4, 4, False), (5, 8, 0, True)]
+        return [(6, 8, 2, False), (6, 8, 3, True), (7, 4, 4, False), (5, 8, 0, True), (7, 12, 3, False)]
     return [(nr, nt, nsc, d) for nr, nt in ((5, 4), (6, 8), (7, 8), (9, 12)) for nsc in (0, 2, 3, nr) for d in (False, True)]
 
 
